@@ -30,6 +30,7 @@ type conn struct {
 	results  map[int]chan data
 	lock     sync.Mutex
 	counter  int32
+	closed   int32
 	onClose  func(net.Conn)
 	once     sync.Once
 }
@@ -103,6 +104,12 @@ func (c *conn) Transport(ctx context.Context, request []byte) (response []byte, 
 	index := int(atomic.AddInt32(&c.counter, 1) & 0x7fffffff)
 	resultChan := make(chan data, 1)
 	c.store(index, resultChan)
+	if atomic.LoadInt32(&c.closed) != 0 {
+		// the connection ended before this call was registered: nobody will
+		// answer it or fail it, so fail it here instead of waiting forever.
+		c.delete(index)
+		return nil, core.ErrClosed
+	}
 	select {
 	case <-ctx.Done():
 		c.delete(index)
@@ -208,6 +215,7 @@ func (c *conn) Receive(ctx context.Context, onExit func()) {
 }
 
 func (c *conn) Close(err error) {
+	atomic.StoreInt32(&c.closed, 1)
 	c.once.Do(func() {
 		c.onClose(c.Conn)
 		_ = c.Conn.Close()
